@@ -418,7 +418,13 @@ impl<'a, T> ViewMutData<'a, T> {
     ///
     /// Unlike splitting a slice, this does *not* ensure that the two halves
     /// do not overlap, only that the "left" and "right" ranges are valid.
-    pub fn split_mut(
+    ///
+    /// # Safety
+    ///
+    /// Both results have the lifetime of `self` and their ranges may overlap.
+    /// The caller must ensure that the two views are never used to create
+    /// references to the same element.
+    pub unsafe fn split_mut(
         self,
         left: Range<usize>,
         right: Range<usize>,
